@@ -13,6 +13,10 @@ FILES = {
   "C20": ["sandbox/grist/relabeling.py", "sandbox/grist/column.py", "sandbox/grist/docmodel.py"],
   "C31": ["sandbox/grist/useractions.py", "sandbox/grist/action_obj.py", "sandbox/grist/table.py",
           "sandbox/grist/docmodel.py"],
+  "C09": ["sandbox/grist/useractions.py", "sandbox/grist/docmodel.py", "sandbox/grist/summary.py", "sandbox/grist/engine.py"],
+  "C10": ["sandbox/grist/useractions.py", "sandbox/grist/column.py", "sandbox/grist/relation.py"],
+  "C11": ["sandbox/grist/column.py", "sandbox/grist/reverse_references.py", "sandbox/grist/useractions.py"],
+  "C12": ["sandbox/grist/summary.py", "sandbox/grist/table.py", "sandbox/grist/docmodel.py", "sandbox/grist/engine.py"],
 }
 ORACLE_TEXT = {
   "C01": "snapshot(all tables incl. _grist_*) before bundle == snapshot after ApplyUndoActions(returned undo); "
@@ -25,6 +29,16 @@ ORACLE_TEXT = {
   "C20": "every PositionNumber column holds distinct finite values per table after each bundle",
   "C31": "direct flags parallel to stored; summary-table maintenance and formula-result updates non-direct; "
          "the user's record edits on ordinary tables direct",
+  "C09": "after every successful bundle: every Ref/RefList metadata cell (columns read from schema_create_actions) points at an "
+         "existing record; fields belong to their section's table; each user table has exactly one _grist_Tables record and a "
+         "raw section; display/rule helper columns are still used by a column, field or rule list",
+  "C10": "after every successful bundle: no data Ref cell points at a row the bundle removed, no RefList contains one; for "
+         "removal-only bundles each RefList equals its previous list minus the removed ids, None when empty (user and metadata tables)",
+  "C11": "after every successful bundle: for each pair of columns linked through reverseCol, a refers to b iff b refers to a; "
+         "rejected bundles leave the document unchanged (checked by C04)",
+  "C12": "after every successful bundle: for each summary table, keys == distinct group-by keys of the source (list cells "
+         "contribute one key per distinct element, empty list -> ''/0, non-list -> none), keys unique, group == source rows "
+         "with that key in ascending id order, no empty groups",
 }
 
 
@@ -36,6 +50,28 @@ def plan(pid, tier):
   kinds = F.ALL_KINDS
   if pid == "C31":
     kinds = F.RECORD_KINDS + ["AddColumn", "ModifyType", "Summary"]
+  INV_FIX = {"C09": (("views", "med"), ("summary", "small"), ("twoway", "small")),
+             "C10": (("twoway", "med"), ("basic", "med"), ("views", "small"), ("summary", "small")),
+             "C11": (("twoway", "full"),),
+             "C12": (("summary", "med"), ("basic", "small"))}
+  if pid in INV_FIX:
+    fx0 = INV_FIX[pid][0][0]
+    if tier == "quick":
+      for fx, size in INV_FIX[pid]:
+        for k in kinds:
+          shards.append((fx, "one", k, 1, size, size, want, 0, None, None))
+      pairs = []
+      for k in kinds:
+        for k2 in kinds:
+          pairs.append((fx0, "seq", k + "+" + k2, 2, "micro", "micro", want, 0, 30.0, None))
+      return pairs + shards
+    for fx, _ in INV_FIX[pid] + (("basic", "x"), ("types", "x")):
+      for k in kinds:
+        shards.append((fx, "one", k, 1, "full", "full", want, 0, None, None))
+        for k2 in kinds:
+          shards.append((fx, "seq", k + "+" + k2, 2, "tiny", "micro", want, 0, 120.0, None))
+        shards.append((fx, "seq", k, 3, "micro", "micro", want, 2, 120.0, None))
+    return shards
   if tier == "quick":
     for fx, size in (("basic", "med"), ("trigger", "med"), ("types", "small"), ("summary", "small"),
                      ("twoway", "small"), ("lookup", "small")):
